@@ -172,8 +172,8 @@ Fixpoint py_prod (acc:num) (l:list num) : option num :=
 
 (* ---------- printing a complex number (abstract_syntax.Complex.__str__): each part is shown as an integer when math.isclose(x, int(x),
    abs_tol=1e-16) - relative tolerance 1e-9, the default - and as a real otherwise ---------- *)
-Definition rel_tol := S754_finite false 4836370363861653 (-82).      (* 1e-9  = 0x1.12e0be826d695p-30 *)
-Definition abs_tol := S754_finite false 8110080143698364 (-106).     (* 1e-16 = 0x1.cd2b297d889bcp-54 *)
+Definition rel_tol := S754_finite false 4835703278458517 (-82).      (* 1e-9  = 0x1.12e0be826d695p-30; RealText.tolerances_are_the_decimals reads both back from their decimal texts *)
+Definition abs_tol := S754_finite false 8112963841460668 (-106).     (* 1e-16 = 0x1.cd2b297d889bcp-54 *)
 Definition f_le (a b:spec_float) : bool := match SFcompare a b with Some Lt | Some Eq => true | _ => false end.
 Definition f_eqb (a b:spec_float) : bool := match SFcompare a b with Some Eq => true | _ => false end.
 Definition to_int_if_possible (f:spec_float) : Z + spec_float :=
